@@ -32,6 +32,16 @@ func cmdDump(args []string) {
 		fmt.Println("ERROR:", err)
 		os.Exit(2)
 	}
+	if len(args) >= 1 {
+		if h, ok := debugHooks[args[0]]; ok {
+			a := ""
+			if len(args) > 1 {
+				a = args[1]
+			}
+			h(P, M, a)
+			return
+		}
+	}
 	fmt.Printf("packages=%d product=%d funcs=%d load=%.1fs\n", len(P.Pkgs), len(P.Product), len(P.ModFuncs), P.LoadSecs)
 	for _, a := range M.Analyzers {
 		fmt.Printf("analyzer %s name=%q run=%v requires=%d facts=%v\n", a.VarName, a.Name, a.Run != nil, len(a.Requires), a.FactTypes)
@@ -48,4 +58,32 @@ func cmdDump(args []string) {
 			fmt.Printf("   %s\n", l)
 		}
 	}
+}
+
+func init() {
+	debugHooks["flow"] = func(P *Program, M *Model, arg string) {
+		c := &Ctx{P: P, M: M}
+		for _, s := range M.Sites {
+			if !containsStr(FuncName(s.Fn), arg) {
+				continue
+			}
+			si := c.buildSiteInfo(s)
+			fmt.Printf("SITE %s reached=%v dropped=%v\n", si.Name, si.Flow.Reached, si.Flow.Dropped)
+			for _, l := range si.Flow.Guards.list() {
+				fmt.Printf("   FLOW %s\n", short(l.String()))
+			}
+		}
+	}
+}
+
+var debugHooks = map[string]func(P *Program, M *Model, arg string){}
+
+func containsStr(s, sub string) bool { return len(sub) == 0 || (len(s) >= len(sub) && indexOf(s, sub) >= 0) }
+func indexOf(s, sub string) int {
+	for i := 0; i+len(sub) <= len(s); i++ {
+		if s[i:i+len(sub)] == sub {
+			return i
+		}
+	}
+	return -1
 }
